@@ -77,7 +77,7 @@ func watchdog(limit time.Duration) {
 			same = 0
 			continue
 		}
-		p := runtime.SimPicks()
+		p := runtime.SimBubblePicks()
 		if p == last {
 			same++
 		} else {
